@@ -128,7 +128,7 @@ CLAIMS = {
             "strategy against the language semantics, not a shape of the code).", "§4 C03"),
 }
 
-EXTRAS = {'C19': " Also: every render arm of the malformed-output and diff renderers must pass through a write of each of its payload parts (must-pass-through per arm). Also (R19.7): the pretty renderer's gutter width derives from max(count_output_lines, expectations.len()) plus the base added to the printed numbers. Also (R19.8): no renderer drops an outcome between its argument and its loop (copy / re-order only). Also (R19.9, F27): output bytes are decoded lossily only (no strict from_utf8 + `?` in src/renderers) and no trimming / cutting / re-casing std call lies between a DiffLine payload and the hunk buffers (diff) or the written output (pretty). R19.9 also forbids serialize_bytes in the crate's Serialize impls (the yaml renderer cannot write bytes). R19.9 also demands that the loops over the diff records (pretty and diff renderer) are left by exhaustion or an error return only.", 'C03': " Also: a non-optional multiline expectation yields only after it consumed a line. Also: a cursor write that lands neither on cursor+1 nor on the look-ahead's result is reported (the found expectation / line would be passed over).", 'C06': " Also: consumed-line conservation in the tokenizer (every read line stored once or consumed as a delimiter), the closing-fence predicate is a prefix test against the opening fence, and the line parser's exact `$ `/`> ` prefixes with unmodified body text. Also: no unwrap/expect on a fallible text conversion in the parsing layer (total parsing, R6.11), and the fence info string is split at its first `{` only (R6.12). Also: every title line appended to the pending paragraph is committed before the next token is read (R6.14), and end_testcase leaves no parsed exit code behind (R6.13). Also (R6.15): document lines reach the tokens verbatim - the line source returns the Lines::next item itself and token fields hold the read line copied only. Also (R6.16, F28): blanks around the fence's info string decide nothing (language trimmed on both ends, configuration at its end); the stored inline configuration is the info string's `{..}` text minus the outer pair, otherwise uncut (shared with C17 R17.5). R6.13 also demands that inside the parser's loop no end_testcase call is guarded by a query of the line parser's own state (close-not-state-dependent). The shared line parser rules also demand that a `> ` line extends a command only when one was started (continuation-needs-command). Also (R6.17, F49/F54): the VerbatimCodeBlock arm clears the pending title; a configuration not enclosed in braces is stored as it is and reported by the parser.", 'C08': " Also: the canonical rendering's ` (escaped)` decision (has_unprintable) and its rendering (escaped_printable) classify characters identically. Also (R8.7): a rule that decodes escapes in make() unmakes to the decoded bytes its matches() compares with. Also (R8.4): the writer marks an equal expectation explicitly (`{expr} (equal)`) when its text ends like a modifier. Also (R8.8): parse hands the line to extract unchanged. Also (R8.9, F35): reader `\\s(` and the writer's ends_like_modifier use the same separator class. Also (R8.10): the `escaped` kind always doubles backslashes (F47); one escaped rendering for all kinds is reported (known finding F48). R8.9 also evaluates the writer's per-character test of the trailing group for every character of the registered kind names (`no-eol` has a hyphen).", 'C09': " Also: the escape-introducer and marker rules shared with C11, the sibling agreement of the three character-class predicates, ` (no-eol)` never after ` (escaped)` (guard as in OutputStream::to_output_string), and the command written back without trim/replace; ` (no-eol)` never after ` (escaped)`; writer/reader syntax-class cross-check (R9.8). Also (R9.9, shared with C06 R6.9): the parser closes a block on a column-0 prefix test - what the writer's max_backtick_size measures. Also (R9.10, F30/F32): every `[n]` line is written on the non-zero edge only, and the InvalidExitCode arm regenerates the expectations from output.stderr exactly on output_stream == Some(Stderr). R9.8 has a fifth class while the reader drops a trailing ` (no-eol)` from escaped expressions (known finding F43). R9.10 also demands that the InvalidExitCode arm writes none of the old expectations back (validation returns that error before it diffs).", 'C10': " Also: the stored original flows from the line through trim_newlines only, parser and update generator agree on which blocks carry a test case, commands are written back verbatim and re-read with the exact `$ `/`> ` prefixes. Also (R10.9): the update command builds its parser and its Markdown update generator from the same whole markdown_languages list. Also (R10.10, shared with C06 R6.9): writer/reader fence agreement. Also (R10.8, F26): the update generator consumes an outcome exactly for blocks with a code line starting with the parser's command-start literal (bound by role in LineParser::add_testcase_body). Also (R10.11, shared with C06 R6.15): lines verbatim. Also (R10.12): assure_newline - how every kept line is written back - names no character but `\\n` and calls no trimming. R10.1 (F29): the front-matter is re-emitted between two literal `---\\n` writes, no literal write begins with a line feed. Also (R10.13, shared with C09 R9.10): idempotence of the exit code line. R10.1 also demands that assure_newline is applied to single kept lines, never to a joined text.", 'C11': " Also: the escape decision, the backslash-doubling flag and has_unprintable use one character class, and Escaper dispatches each mode to its own functions. The ` (escaped)` decision is accepted in three forms (comparison, comparison inside a helper, has_unprintable predicate that is true on invalid UTF-8); the per-character unit may be a closure or a loop body. Also (R11.6, shared with C08 R8.3): exactly one white space separates the expression from the trailing group in the reader's grammar.", 'C12': " Also: option dumps precede function/variable dumps, and the state directory path reaches the template unmodified in a double-quoted position. Also (R12.6): every name the template itself assigns or declares - including `local` in the trap function - is an excluded __SCRUT internal, so no user variable is shadowed in the dump. Also: the persisted state is sourced independently of {persist_state} (detached test cases see their predecessors' state). Also (R12.7): the `grep -Ev` filters of the variable dump are anchored at `^declare -`, have no unbounded wildcard in their flag part, and a table of representative `declare -p` lines (values with blanks, `r `, `=`, arrays) passes them while read-only and excluded variables are dropped. R12.4 also requires `>|` for the dump (F34), `builtin cd` / `builtin pushd` (F38) and OLDPWD written after the directory lines (F39). Also (R12.8): the persist handler is not shielded from a `trap .. EXIT` of the test itself (known finding F46).", 'C13': " Also: in the Cram script the user's expression is followed by an empty line before scrut's footer. Also: replace_crlf's per-byte guard structure (the only non-copying path is `byte == CR` and `bytes.get(index+1) == Some(&LF)`, R13.7), and the divider parser receives the line from the salted prefix on (R13.2). Also (R13.8, shared with C07 R7.2): `$ `/`> ` lines are stored after stripping exactly the prefix. Also (R13.9, shared with C16 R16.3): the transformation guards read the test case's effective configuration (layer order at every merge site). Also (R13.10): keep_crlf / strip_ansi_escaping / output_stream are merged receiver-first from their own field. Also (R13.11): compile_testcase rejects test cases that disagree on keep_crlf / output_stream. Also (R13.12, shared with C20 R20.3): one Output per loop iteration incl. the Detached placeholder. Also (R13.13, F50): remove_dividers_from_output puts the kept lines together without a separator.", 'C14': " Also: the remaining document time is deadline.map(total saturating subtraction) (never `no limit` after the deadline), and Popen::kill dominates every ExitStatus::Timeout result. Also: nothing is subtracted from the selected minimum before it is stored as the test case's limit (R14.2 store-unmodified). R14.8 demands SIGKILL (Popen::kill): SIGTERM can be trapped by the test's shell expression and the unbounded wait() then lasts until the command is done. Also (R14.9, F31): with a timeout set no unbounded Popen::wait is reached before a kill. R14.4 also demands that ExecutionError::Timeout is constructed only in the arm of a timed-out output. Also (R14.10, shared with C20 R20.4): positional zips in the Timeout arm. R14.9 also requires that wait_timeout receives the limit minus the elapsed time. Also (R14.11, F52/F53): the wait is bounded by what is left of the document's time and precedes the selection of the effective timeout; the deadline is computed with checked_add.", 'C15': " Also: the compared skip code is looked up on the test case of the current loop iteration. Also: compile_testcase carries the test cases' skip_document_code into the compiled Cram test case. Also (sufficiency): once the exit code equals the skip code every path constructs Skipped. Also (R15.5, shared with C16 R16.1): `skip_document_code` is merged receiver-first, unconditionally. Also (R15.6): compile_testcase rejects test cases that disagree on skip_document_code. Also (R15.7, F44): in single-script execution the skip scan of the divided output precedes the script-level Timeout verdict; R15.1 accepts a scan closure that sets its flag only under `exit_code == skip code`.", 'C16': ' Also: each key of the command-line layer is control-dependent only on its own flag(s). Also (R16.6): no clap default on any flag that feeds the command-line layer (an absent flag leaves its key unset; read from the derive expansion). Loop-carried merges (`v = v.merge(x)` inside the token loop) are classified by treating the cut self reference as the neutral layer. List merges (append / prepend) are checked for the documented order in every recognised form (chain+collect, extend idiom, array concat, local closure).', 'C18': " Also: the bash state file is written inside the owned TempDir (path unmodified, double-quoted position) and a timed-out child is killed so that it cannot re-create removed directories; the variables scrut sets per test case against the exclusion list of the persisted state (R18.6, known finding F20). Also (R18.7): scrut's EXIT handler is armed at exactly one template statement and never dumped into the persisted state (no `trap -p`). Also (R18.8): the environment map reaches Exec::env_extend copied / extended only, never filtered. Also (R18.9): TESTFILE / TESTDIR come from split_path_abs, which takes the file name from the path as given and resolves only the parent directory.", 'C20': ' Also: every zip(outputs, testcases) is positional (no filter/skip on either side) and no Result of the document discovery/reading layer is dropped or logged-and-skipped. Also (R20.7): every increment of the per-document failed count passes `total += count` before the next document / the exit decision; counters are bound by use, not by name. Also (R20.8): no `continue` in the documents loop bypasses execute_all, except on emptiness of the accumulated prepend + own + append list. Also (R20.9, shared with C14 R14.4): executor / test command contract - ExecutionError::Timeout only from a timed-out output, so a failure is counted and exit 50 follows. Also (R20.10, shared with C16 R16.1): prepend / append accumulate own and inherited list. Also (R20.11, F51): every TestCase::validate in the test command sits behind a test for Detached.', 'C02': " C01's accounting obligations (cursors move only past recorded lines/expectations; ranged Matched records non-empty for non-optional expectations) are reported under C02 as well. Also (R2.6): Diff::new keeps every record it is given (no filter / retain / dedup on the way into `lines`).", 'C01': ' Also: a ranged Matched record covers at least one line unless the expectation is optional; has_differences may equivalently be `count_matched < lines.len()` if Diff::new counts exactly one per Matched record. Also (R1.8, shared with C04 R4.2): per Rule impl the line reaches the whole-line comparator through the documented transforms only. Also (R1.9): the text the rules compare is the line without its line feed(s) only - trim_newlines / ends_in_newline name no character but `\\n` and call no whitespace trimming. The contracted `for i in E..X` loop over skipped expectations must be left by iterator exhaustion only (ranged-complete). Also (R1.10, shared with C02 R2.6): Diff::new keeps every record, so has_differences sees everything DiffTool::diff recorded.', 'C07': ' Also (R7.5): no unwrap/expect on a fallible text conversion (parse, from_str, from_utf8 ..) in parsers / expectation / rules / config. Also (R7.6): every Ok path of LineParser::end_testcase flushes the state or resets the parsed exit code. Also: the `> ` continuation is honoured only directly after a command line (in-command flag reset on every other accepted line). Also (R7.1 empty-always-ends, F33): at an empty line end_testcase is passed on every path to the next line; close-not-state-dependent as in C06. Also: continuation-needs-command (a `> ` line is stored only onto a command that has a start).', 'C17': " Also: both durations reach humantime::format_duration through projections only, also through a local closure or helper (no arithmetic). Also (R17.6): the front-matter delimiter is written and read as exactly `---`. R17.5 also requires that the tokenizer stores the inline configuration uncut (two strips only, no search for a closing brace). Also (R17.7): is_empty looks at every field. Also (R17.8, F36/F37): the quoted form escapes U+007F..U+009F; the default-timeout omission compares the whole duration. Also (R17.9): no deserializer in src/config.rs buffers through serde's typed `Content` (untagged enums), because the writer leaves plain number-like values unquoted.", 'C04': " Also (R4.6): every matcher in src/rules is built with the regex crate's default semantics (no unicode(false) / case_insensitive / multi_line on a builder). Also (R4.7): the regex clean-up keeps the backslash before every metacharacter (decided by per-character case folding). Also (R4.8, shared with C01 R1.9): every rule kind compares the line without its line feed(s) only. Also (R4.9, F40/F42): the quantifier clean-up's pattern constant is evaluated on a table ({n}, {n,m}, {n,} in; malformed forms out); hex / octal digits are validated before from_str_radix. R4.5's decoder table reads the default arm as `ch, ch2:utf8` (F41). R4.9 also demands that the expression of an escaped glob is decoded strictly (no from_utf8_lossy in apply_escaped_filter_utf8).", 'C05': " Also (R5.6, shared with C16 R16.3): the executor's merge keeps the test case layer above the document defaults, so execution and validation see the same output_stream. Also (R5.7): the bash wrapper handles no signal (its handler is armed for EXIT only), so death by signal stays visible as Signaled => Unknown. R5.4b accepts an expired bounded wait (Popen::wait_timeout) as a timeout. Also (R5.8, shared with C13 R13.11): in single-script execution test cases that disagree on output_stream are rejected by compile_testcase. Also (R5.9, shared with C06 R6.13 / C07 R7.6): no parsed exit code line survives the end of a block / run. Also (R5.10, shared with C20 R20.11): validate is never called on a detached execution's placeholder output."}
+EXTRAS = {'C19': " Also: every render arm of the malformed-output and diff renderers must pass through a write of each of its payload parts (must-pass-through per arm). Also (R19.7): the pretty renderer's gutter width derives from max(count_output_lines, expectations.len()) plus the base added to the printed numbers. Also (R19.8): no renderer drops an outcome between its argument and its loop (copy / re-order only). Also (R19.9, F27): output bytes are decoded lossily only (no strict from_utf8 + `?` in src/renderers) and no trimming / cutting / re-casing std call lies between a DiffLine payload and the hunk buffers (diff) or the written output (pretty). R19.9 also forbids serialize_bytes in the crate's Serialize impls (the yaml renderer cannot write bytes). R19.9 also demands that the loops over the diff records (pretty and diff renderer) are left by exhaustion or an error return only.", 'C03': " Also: a non-optional multiline expectation yields only after it consumed a line. Also: a cursor write that lands neither on cursor+1 nor on the look-ahead's result is reported (the found expectation / line would be passed over).", 'C06': " Also: consumed-line conservation in the tokenizer (every read line stored once or consumed as a delimiter), the closing-fence predicate is a prefix test against the opening fence, and the line parser's exact `$ `/`> ` prefixes with unmodified body text. Also: no unwrap/expect on a fallible text conversion in the parsing layer (total parsing, R6.11), and the fence info string is split at its first `{` only (R6.12). Also: every title line appended to the pending paragraph is committed before the next token is read (R6.14), and end_testcase leaves no parsed exit code behind (R6.13). Also (R6.15): document lines reach the tokens verbatim - the line source returns the Lines::next item itself and token fields hold the read line copied only. Also (R6.16, F28): blanks around the fence's info string decide nothing (language trimmed on both ends, configuration at its end); the stored inline configuration is the info string's `{..}` text minus the outer pair, otherwise uncut (shared with C17 R17.5). R6.13 also demands that inside the parser's loop no end_testcase call is guarded by a query of the line parser's own state (close-not-state-dependent). The shared line parser rules also demand that a `> ` line extends a command only when one was started (continuation-needs-command). Also (R6.17, F49/F54): the VerbatimCodeBlock arm clears the pending title; a configuration not enclosed in braces is stored as it is and reported by the parser.", 'C08': " Also: the canonical rendering's ` (escaped)` decision (has_unprintable) and its rendering (escaped_printable) classify characters identically. Also (R8.7): a rule that decodes escapes in make() unmakes to the decoded bytes its matches() compares with. Also (R8.4): the writer marks an equal expectation explicitly (`{expr} (equal)`) when its text ends like a modifier. Also (R8.8): parse hands the line to extract unchanged. Also (R8.9, F35): reader `\\s(` and the writer's ends_like_modifier use the same separator class. Also (R8.10): the `escaped` kind always doubles backslashes (F47); one escaped rendering for all kinds is reported (known finding F48). R8.9 also evaluates the writer's per-character test of the trailing group for every character of the registered kind names (`no-eol` has a hyphen).", 'C09': " Also: the escape-introducer and marker rules shared with C11, the sibling agreement of the three character-class predicates, ` (no-eol)` never after ` (escaped)` (guard as in OutputStream::to_output_string), and the command written back without trim/replace; ` (no-eol)` never after ` (escaped)`; writer/reader syntax-class cross-check (R9.8). Also (R9.9, shared with C06 R6.9): the parser closes a block on a column-0 prefix test - what the writer's max_backtick_size measures. Also (R9.4): a non-zero exit code is always written. Also (R9.10, F32): the InvalidExitCode arm regenerates the expectations from output.stderr exactly on output_stream == Some(Stderr). R9.8 has a fifth class while the reader drops a trailing ` (no-eol)` from escaped expressions (known finding F43). R9.10 also demands that the InvalidExitCode arm writes none of the old expectations back (validation returns that error before it diffs).", 'C10': " Also: the stored original flows from the line through trim_newlines only, parser and update generator agree on which blocks carry a test case, commands are written back verbatim and re-read with the exact `$ `/`> ` prefixes. Also (R10.9): the update command builds its parser and its Markdown update generator from the same whole markdown_languages list. Also (R10.10, shared with C06 R6.9): writer/reader fence agreement. Also (R10.8, F26): the update generator consumes an outcome exactly for blocks with a code line starting with the parser's command-start literal (bound by role in LineParser::add_testcase_body). Also (R10.11, shared with C06 R6.15): lines verbatim. Also (R10.12): assure_newline - how every kept line is written back - names no character but `\\n` and calls no trimming. R10.1 (F29): the front-matter is re-emitted between two literal `---\\n` writes, no literal write begins with a line feed. Also (R10.13, F55): where the exit code was the expected one (Ok / MalformedOutput arm) an `[n]` line is written for n != 0 or for the zero the test spells out itself, and that spelled-out `[0]` is written again. R10.1 also demands that assure_newline is applied to single kept lines, never to a joined text.", 'C11': " Also: the escape decision, the backslash-doubling flag and has_unprintable use one character class, and Escaper dispatches each mode to its own functions. The ` (escaped)` decision is accepted in three forms (comparison, comparison inside a helper, has_unprintable predicate that is true on invalid UTF-8); the per-character unit may be a closure or a loop body. Also (R11.6, shared with C08 R8.3): exactly one white space separates the expression from the trailing group in the reader's grammar.", 'C12': " Also: option dumps precede function/variable dumps, and the state directory path reaches the template unmodified in a double-quoted position. Also (R12.6): every name the template itself assigns or declares - including `local` in the trap function - is an excluded __SCRUT internal, so no user variable is shadowed in the dump. Also: the persisted state is sourced independently of {persist_state} (detached test cases see their predecessors' state). Also (R12.7): the `grep -Ev` filters of the variable dump are anchored at `^declare -`, have no unbounded wildcard in their flag part, and a table of representative `declare -p` lines (values with blanks, `r `, `=`, arrays) passes them while read-only and excluded variables are dropped. R12.4 also requires `>|` for the dump (F34), `builtin cd` / `builtin pushd` (F38) and OLDPWD written after the directory lines (F39). Also (R12.8): the persist handler is not shielded from a `trap .. EXIT` of the test itself (known finding F46).", 'C13': " Also: in the Cram script the user's expression is followed by an empty line before scrut's footer. Also: replace_crlf's per-byte guard structure (the only non-copying path is `byte == CR` and `bytes.get(index+1) == Some(&LF)`, R13.7), and the divider parser receives the line from the salted prefix on (R13.2). Also (R13.8, shared with C07 R7.2): `$ `/`> ` lines are stored after stripping exactly the prefix. Also (R13.9, shared with C16 R16.3): the transformation guards read the test case's effective configuration (layer order at every merge site). Also (R13.10): keep_crlf / strip_ansi_escaping / output_stream are merged receiver-first from their own field. Also (R13.11): compile_testcase rejects test cases that disagree on keep_crlf / output_stream. Also (R13.12, shared with C20 R20.3): one Output per loop iteration incl. the Detached placeholder. Also (R13.13, F50): remove_dividers_from_output puts the kept lines together without a separator.", 'C14': " Also: the remaining document time is deadline.map(total saturating subtraction) (never `no limit` after the deadline), and Popen::kill dominates every ExitStatus::Timeout result. Also: nothing is subtracted from the selected minimum before it is stored as the test case's limit (R14.2 store-unmodified). R14.8 demands SIGKILL (Popen::kill): SIGTERM can be trapped by the test's shell expression and the unbounded wait() then lasts until the command is done. Also (R14.9, F31): with a timeout set no unbounded Popen::wait is reached before a kill. R14.4 also demands that ExecutionError::Timeout is constructed only in the arm of a timed-out output. Also (R14.10, shared with C20 R20.4): positional zips in the Timeout arm. R14.9 also requires that wait_timeout receives the limit minus the elapsed time. Also (R14.11, F52/F53): the wait is bounded by what is left of the document's time and precedes the selection of the effective timeout; the deadline is computed with checked_add.", 'C15': " Also: the compared skip code is looked up on the test case of the current loop iteration. Also: compile_testcase carries the test cases' skip_document_code into the compiled Cram test case. Also (sufficiency): once the exit code equals the skip code every path constructs Skipped. Also (R15.5, shared with C16 R16.1): `skip_document_code` is merged receiver-first, unconditionally. Also (R15.6): compile_testcase rejects test cases that disagree on skip_document_code. Also (R15.7, F44): in single-script execution the skip scan of the divided output precedes the script-level Timeout verdict; R15.1 accepts a scan closure that sets its flag only under `exit_code == skip code`.", 'C16': ' Also: each key of the command-line layer is control-dependent only on its own flag(s). Also (R16.6): no clap default on any flag that feeds the command-line layer (an absent flag leaves its key unset; read from the derive expansion). Loop-carried merges (`v = v.merge(x)` inside the token loop) are classified by treating the cut self reference as the neutral layer. List merges (append / prepend) are checked for the documented order in every recognised form (chain+collect, extend idiom, array concat, local closure).', 'C18': " Also: the bash state file is written inside the owned TempDir (path unmodified, double-quoted position) and a timed-out child is killed so that it cannot re-create removed directories; the variables scrut sets per test case against the exclusion list of the persisted state (R18.6, known finding F20). Also (R18.7): scrut's EXIT handler is armed at exactly one template statement and never dumped into the persisted state (no `trap -p`). Also (R18.8): the environment map reaches Exec::env_extend copied / extended only, never filtered. Also (R18.9): TESTFILE / TESTDIR come from split_path_abs, which takes the file name from the path as given and resolves only the parent directory.", 'C20': ' Also: every zip(outputs, testcases) is positional (no filter/skip on either side) and no Result of the document discovery/reading layer is dropped or logged-and-skipped. Also (R20.7): every increment of the per-document failed count passes `total += count` before the next document / the exit decision; counters are bound by use, not by name. Also (R20.8): no `continue` in the documents loop bypasses execute_all, except on emptiness of the accumulated prepend + own + append list. Also (R20.9, shared with C14 R14.4): executor / test command contract - ExecutionError::Timeout only from a timed-out output, so a failure is counted and exit 50 follows. Also (R20.10, shared with C16 R16.1): prepend / append accumulate own and inherited list. Also (R20.11, F51): every TestCase::validate in the test command sits behind a test for Detached.', 'C02': " C01's accounting obligations (cursors move only past recorded lines/expectations; ranged Matched records non-empty for non-optional expectations) are reported under C02 as well. Also (R2.6): Diff::new keeps every record it is given (no filter / retain / dedup on the way into `lines`).", 'C01': ' Also: a ranged Matched record covers at least one line unless the expectation is optional; has_differences may equivalently be `count_matched < lines.len()` if Diff::new counts exactly one per Matched record. Also (R1.8, shared with C04 R4.2): per Rule impl the line reaches the whole-line comparator through the documented transforms only. Also (R1.9): the text the rules compare is the line without its line feed(s) only - trim_newlines / ends_in_newline name no character but `\\n` and call no whitespace trimming. The contracted `for i in E..X` loop over skipped expectations must be left by iterator exhaustion only (ranged-complete). Also (R1.10, shared with C02 R2.6): Diff::new keeps every record, so has_differences sees everything DiffTool::diff recorded.', 'C07': ' Also (R7.5): no unwrap/expect on a fallible text conversion (parse, from_str, from_utf8 ..) in parsers / expectation / rules / config. Also (R7.6): every Ok path of LineParser::end_testcase flushes the state or resets the parsed exit code. Also: the `> ` continuation is honoured only directly after a command line (in-command flag reset on every other accepted line). Also (R7.1 empty-always-ends, F33): at an empty line end_testcase is passed on every path to the next line; close-not-state-dependent as in C06. Also: continuation-needs-command (a `> ` line is stored only onto a command that has a start).', 'C17': " Also: both durations reach humantime::format_duration through projections only, also through a local closure or helper (no arithmetic). Also (R17.6): the front-matter delimiter is written and read as exactly `---`. R17.5 also requires that the tokenizer stores the inline configuration uncut (two strips only, no search for a closing brace). Also (R17.7): is_empty looks at every field. Also (R17.8, F36/F37): the quoted form escapes U+007F..U+009F; the default-timeout omission compares the whole duration. Also (R17.9): no deserializer in src/config.rs buffers through serde's typed `Content` (untagged enums), because the writer leaves plain number-like values unquoted.", 'C04': " Also (R4.6): every matcher in src/rules is built with the regex crate's default semantics (no unicode(false) / case_insensitive / multi_line on a builder). Also (R4.7): the regex clean-up keeps the backslash before every metacharacter (decided by per-character case folding). Also (R4.8, shared with C01 R1.9): every rule kind compares the line without its line feed(s) only. Also (R4.9, F40/F42): the quantifier clean-up's pattern constant is evaluated on a table ({n}, {n,m}, {n,} in; malformed forms out); hex / octal digits are validated before from_str_radix. R4.5's decoder table reads the default arm as `ch, ch2:utf8` (F41). R4.9 also demands that the expression of an escaped glob is decoded strictly (no from_utf8_lossy in apply_escaped_filter_utf8).", 'C05': " Also (R5.6, shared with C16 R16.3): the executor's merge keeps the test case layer above the document defaults, so execution and validation see the same output_stream. Also (R5.7): the bash wrapper handles no signal (its handler is armed for EXIT only), so death by signal stays visible as Signaled => Unknown. R5.4b accepts an expired bounded wait (Popen::wait_timeout) as a timeout. Also (R5.8, shared with C13 R13.11): in single-script execution test cases that disagree on output_stream are rejected by compile_testcase. Also (R5.9, shared with C06 R6.13 / C07 R7.6): no parsed exit code line survives the end of a block / run. Also (R5.10, shared with C20 R20.11): validate is never called on a detached execution's placeholder output."}
 
 PENDING = "static rules for this property are designed (DESIGN.md §4) but not yet implemented in this revision"
 
